@@ -27,7 +27,7 @@ RULE = (
     "NaN-free groups, nanarg* on not-all-NaN groups). Non-trivial = >=2 blocks and (the group's extreme occurs in >=2 "
     "blocks, or a NaN sits next to a block border)."
 )
-BUDGET = {"quick": 250, "thorough": 3000}
+BUDGET = {"quick": 500, "thorough": 3000}
 FUNCS = ["argmax", "argmin", "nanargmax", "nanargmin", "nanfirst", "nanlast", "first", "last"]
 ASSUMPTIONS = ["first/last on chunked input are only generated for plans flox documents to accept (blockwise)"]
 
